@@ -1,5 +1,269 @@
-import FV.Model.Sat
+import FV.Proofs.Wrap
+/-
+  C07 — SAT layer: every posted constraint is encoded exactly.
+
+  Models: `FV/Model/Sat.lean` (`SATManager`), `FV/Model/Bdd.lean` (`getrobdd` / `constructrobdd`, process-wide store
+  threaded explicitly), `FV/Model/PB.lean` (`Ineq`, `isclause` repaired by fixes/C07_isclause_strict_zero.diff).
+  Vocabulary (`FV/Proofs/*.lean`):
+    `cnfTrue τ cs`         assignment `τ : Var → Bool` satisfies the clause list `cs`
+    `amo τ lst`            at most one literal of `lst` is true
+    `isUser v`             `v` is a user variable (not `robdd_<n>` / `aux_<n>`)
+    `WFStore S`, `S.le S'` the store invariant / `S'` is `S` with nodes appended
+    `evalNodeD S σ id`     the Boolean function of ROBDD node `id`
+    `Post`, `Post.holds`, `Post.WF`, `Mgr.post`   a posted constraint, its meaning, well-formedness (user variables;
+                           inequalities as built by the `Expr` algebra, cf. C16 `normal_form`), the posting method
+    `Run m S ps m' S'`     a history of one manager: `ps` are the accepted constraints, other managers may grow the
+                           shared store in between, refused constraints leave no trace
+    `SolverOK cnf ans`     the assumption on the SAT solver's answer
+-/
 namespace FV.C07
 open FV.PB FV.Sat
-theorem stub : (1 : Nat) = 1 := rfl
+
+/-! ### at-most-one groups and implications -/
+
+/-- `quadraticencoding(lst)` appends exactly the pairwise clauses, and they hold iff at most one literal is true -/
+theorem quadratic_exact (m : Mgr) (lst : List Lit) (τ : Var → Bool) :
+    (m.quadratic lst).clauses = m.clauses ++ quadClauses lst ∧ (cnfTrue τ (quadClauses lst) ↔ amo τ lst) :=
+  ⟨rfl, quadClauses_exact τ lst⟩
+
+/-- `heuleencoding(lst, k)` for every chain width `k ≥ 3` and every list whose literals are not auxiliaries still to
+    be created: it succeeds, appends clauses `ext`, and an assignment `τ0` extends — by choosing the auxiliaries
+    created in this call — to a model of `ext` iff at most one literal of `lst` is true under `τ0`. -/
+theorem heule_exact (m : Mgr) (lst : List Lit) (k : Int) (hk : 3 ≤ k) (hfresh : auxOK m.auxcount lst) :
+    ∃ m' ext, m.heule lst k = .ok m' ∧ m'.clauses = m.clauses ++ ext ∧ m.auxcount ≤ m'.auxcount ∧
+      ∀ τ0 : Var → Bool,
+        (∃ τ, (∀ v, ¬ newAux m.auxcount m'.auxcount v → τ v = τ0 v) ∧ cnfTrue τ ext) ↔ amo τ0 lst := by
+  have hk' : ¬ k < 3 := by omega
+  have step := heuleGo_step k.toNat (by omega) lst.length lst m rfl hfresh
+  obtain ⟨ext, hext, _, hsound, hcompl⟩ := step.clauses
+  refine ⟨_, ext, by simp [Mgr.heule, hk'], hext, step.aux_le, fun τ0 => ⟨?_, hcompl τ0⟩⟩
+  rintro ⟨τ, hag, hτ⟩
+  have := hsound τ hτ
+  simp only [amo] at this ⊢
+  rw [← countP_litTrue_congr (τ := τ) (τ' := τ0)]
+  · exact this
+  · intro l hl
+    apply hag
+    rintro ⟨a, ha, hlo, _⟩
+    have := hfresh l hl a ha
+    omega
+
+/-- a chain width below 3 is refused (and, `Mgr.heule` being a function of the old state, changes nothing) -/
+theorem heule_refused (m : Mgr) (lst : List Lit) (k : Int) (hk : k < 3) : m.heule lst k = .error .exception := by
+  simp [Mgr.heule, hk]
+
+/-- `imply(list1, l2)` appends one clause, true iff (all of `list1` true → `l2` true) -/
+theorem imply_exact (m : Mgr) (l1 : List Lit) (l2 : Lit) (τ : Var → Bool) :
+    (m.imply l1 l2).clauses = m.clauses ++ [l1.map Literal.neg ++ [l2]] ∧
+    (clauseTrue τ (l1.map Literal.neg ++ [l2]) = true ↔ ((∀ l ∈ l1, litTrue τ l = true) → litTrue τ l2 = true)) :=
+  ⟨rfl, imply_clause_exact τ l1 l2⟩
+
+/-! ### the process-wide store -/
+
+theorem store_init_wf : WFStore (Store.init : Store Var) := wf_init
+
+/-- `getrobdd` (either construction, any earlier store contents) keeps the store invariant and only appends -/
+theorem store_getRobdd_wf (q : Ineq Var) (dec : Bool) (S : Store Var) (hw : WFStore S) (hpos : ∀ t ∈ q.lhs.t, 0 < t.c)
+    {id : Nat} {S' : Store Var} (h : q.getRobdd dec S = .ok (id, S')) : WFStore S' ∧ S.le S' ∧ id < S'.size := by
+  by_cases hop : q.op = .ge
+  · obtain ⟨id', S'', hg, w, le, s, _⟩ := getRobdd_spec q dec S hw hpos hop
+    rw [hg] at h; simp at h; obtain ⟨rfl, rfl⟩ := h
+    exact ⟨w, le, s⟩
+  · rw [getRobdd_refused q dec S hop] at h; simp at h
+
+/-- over every history of `getrobdd` calls (all managers of the process, any order, both constructions) starting
+    from the initial store: the invariant holds at the end and nothing that existed was removed or renumbered -/
+theorem store_history_wf (h : List (Ineq Var × Bool)) (hpos : ∀ qd ∈ h, ∀ t ∈ qd.1.lhs.t, 0 < t.c) :
+    WFStore (storeRun h Store.init) ∧ (Store.init : Store Var).le (storeRun h Store.init) :=
+  storeRun_wf h Store.init wf_init hpos
+
+/-- the invariant implies canonicity: no triple is stored under two ids -/
+theorem store_no_duplicates {S : Store Var} (hw : WFStore S) {a b : Nat} {v : Var} {i e : Nat} (ha : 2 ≤ a) (hb : 2 ≤ b)
+    (h1 : S.memory[a]? = some (.node v i e)) (h2 : S.memory[b]? = some (.node v i e)) : a = b :=
+  hw.no_dup ha hb h1 h2
+
+/-- appending nodes never changes what an existing node means -/
+theorem store_append_preserves_meaning {S S' : Store Var} (hw : WFStore S) (hle : S.le S') (σ : Var → Bool) {id : Nat}
+    (hid : id < S.size) : evalNodeD S' σ id = evalNodeD S σ id := evalNodeD_le hw hle σ hid
+
+/-- `getrobdd`, both constructions, whatever the store already holds: on a `>=` inequality with positive
+    coefficients it succeeds and the node it returns is true exactly under the assignments with `Σ cᵢ·litᵢ ≥ rhs` -/
+theorem getRobdd_sem (q : Ineq Var) (dec : Bool) (S : Store Var) (hw : WFStore S) (hpos : ∀ t ∈ q.lhs.t, 0 < t.c)
+    (hop : q.op = .ge) :
+    ∃ id S', q.getRobdd dec S = .ok (id, S') ∧ ∀ σ, evalNodeD S' σ id = decide (termsVal σ q.lhs.t ≥ q.rhs) := by
+  obtain ⟨id, S', hg, _, _, _, sem⟩ := getRobdd_spec q dec S hw hpos hop
+  exact ⟨id, S', hg, sem⟩
+
+/-! ### Tseitin encoding of a diagram -/
+
+/-- one-directional Tseitin encoding is exact for the positively asserted root -/
+theorem codify_exact {S : Store Var} (hw : WFStore S) {root : Nat} (hr : root < S.size) (hv : VarsOK S isUser root) :
+    ∃ m2, Mgr.codify S (root + 1) root {} = .ok m2 ∧
+      ∀ σ : Var → Bool, (∃ τ, (∀ v, isUser v → τ v = σ v) ∧ cnfTrue τ (m2.clauses ++ [[⟨.node root, true⟩]]))
+        ↔ evalNodeD S σ root = true :=
+  codify_exact_fresh hw hr hv
+
+/-! ### `isclause` -/
+
+/-- (repaired code) when `isclause` produces a clause it is equivalent to the inequality; when it answers
+    "tautology" the inequality holds under every assignment -/
+theorem isClause_exact (q : Ineq Var) (hpos : ∀ t ∈ q.lhs.t, 0 < t.c) (hc : q.lhs.c = 0) (τ : Var → Bool) :
+    (q.isClause = .taut → q.holds τ) ∧ (∀ c, q.isClause = .clause c → (clauseTrue τ c = true ↔ q.holds τ)) :=
+  isClause_exact' q hpos hc τ
+
+/-! ### pseudo-Boolean inequalities: encoded exactly or refused -/
+
+/-- Every well-formed inequality handed to `pseudoboolencoding` (either construction) is either refused — an
+    exception, manager and store unchanged since `Mgr.pseudoBool` returns the new state only on success — or
+    encoded exactly: the manager then encodes exactly the old constraints plus this one. -/
+theorem encoding_exact_or_refused {S : Store Var} {m : Mgr} {ps : List Post} (h : MInv S m ps) (q : Ineq Var)
+    (dec : Bool) (hq : (Post.pb q dec).WF) :
+    (∃ e, m.pseudoBool S q dec = .error e) ∨
+    (∃ m' S', m.pseudoBool S q dec = .ok (m', S') ∧ MInv S' m' (ps ++ [.pb q dec])) := by
+  cases hr : m.pseudoBool S q dec with
+  | error e => exact Or.inl ⟨e, rfl⟩
+  | ok r => obtain ⟨m', S'⟩ := r; exact Or.inr ⟨m', S', rfl, minv_post h (.pb q dec) hq hr⟩
+
+/-- `>=` (hence, after normalisation, `<=`) inequalities are never refused -/
+theorem encoding_ge_accepted {S : Store Var} {m : Mgr} {ps : List Post} (h : MInv S m ps) (q : Ineq Var) (dec : Bool)
+    (hq : (Post.pb q dec).WF) (hop : q.op = .ge) : ∃ m' S', m.pseudoBool S q dec = .ok (m', S') := by
+  unfold Mgr.pseudoBool
+  split
+  · exact ⟨_, _, rfl⟩
+  · exact ⟨_, _, rfl⟩
+  · obtain ⟨id, S', hg, w, _, hs, _⟩ := getRobdd_spec q dec S h.wf hq.1.1 hop
+    obtain ⟨m2, r, _⟩ := codify_spec w (id + 1) id m hs (by omega)
+    rw [hg]
+    simp only [r, bind, Except.bind, pure, Except.pure]
+    exact ⟨_, _, rfl⟩
+
+/-- what can be refused at all: a chain width below 3, or an inequality that is neither a clause nor a tautology and
+    whose normalised operator is not `>=` (i.e. `>`, `<`, `=`, `==`) -/
+theorem refused_only {S : Store Var} {m : Mgr} {ps : List Post} (h : MInv S m ps) (p : Post) (hp : p.WF) {e : Sat.Err}
+    (hr : m.post S p = .error e) :
+    (∃ k lst, p = .amoH k lst ∧ k < 3) ∨ (∃ q dec, p = .pb q dec ∧ q.op ≠ .ge ∧ q.isClause = .no) := by
+  cases p with
+  | clause c => simp [Mgr.post] at hr
+  | imply l1 l2 => simp [Mgr.post] at hr
+  | amoQ lst => simp [Mgr.post] at hr
+  | amoH k lst =>
+    refine Or.inl ⟨k, lst, rfl, ?_⟩
+    apply Classical.byContradiction
+    intro hk
+    simp [Mgr.post, Mgr.heule, hk] at hr
+  | pb q dec =>
+    refine Or.inr ⟨q, dec, rfl, ?_, ?_⟩
+    · intro hop
+      obtain ⟨m', S', hok⟩ := encoding_ge_accepted h q dec hp hop
+      simp [Mgr.post, hok] at hr
+    · simp only [Mgr.post, Mgr.pseudoBool] at hr
+      split at hr
+      · simp at hr
+      · simp at hr
+      · assumption
+
+/-! ### whole histories -/
+
+/-- the empty manager over any well-formed store encodes the empty list of constraints -/
+theorem history_start {S : Store Var} (hw : WFStore S) : MInv S {} [] := minv_init hw
+
+/-- Any posting sequence — clauses, implications, pairwise and chained at-most-one groups, pseudo-Boolean
+    inequalities under either construction, refused constraints in between, other managers growing the shared store
+    at any point: an assignment `σ` of the user variables extends to a model of the accumulated CNF iff `σ`
+    satisfies every accepted constraint. -/
+theorem post_history_exact {S0 : Store Var} (hw : WFStore S0) {ps : List Post} {m' : Mgr} {S' : Store Var}
+    (r : Run {} S0 ps m' S') (hps : ∀ p ∈ ps, p.WF) (σ : Var → Bool) :
+    (∃ τ, (∀ v, isUser v → τ v = σ v) ∧ cnfTrue τ m'.clauses) ↔ ∀ p ∈ ps, p.holds σ := by
+  have inv : MInv S' m' ps := by simpa using minv_run r [] (minv_init hw) hps
+  constructor
+  · rintro ⟨τ, hag, hτ⟩ p hp
+    exact (holds_congr (hps p hp) hag).1 (inv.sound τ hτ p hp)
+  · intro hσ
+    obtain ⟨τ, h1, _, h3⟩ := inv.complete σ hσ
+    exact ⟨τ, h1, h3⟩
+
+/-- what the `grow` steps of `Run` stand for: an accepted posting by any other manager, in whatever state, keeps the
+    shared store well formed and only appends to it -/
+theorem post_grows_store {m m' : Mgr} {S S' : Store Var} {p : Post} (hw : WFStore S) (hp : p.WF)
+    (h : m.post S p = .ok (m', S')) : WFStore S' ∧ S.le S' := post_store hw hp h
+
+/-- the same for a manager in the middle of its life: the invariant `MInv` is preserved by every accepted posting -/
+theorem post_step_exact {S S' : Store Var} {m m' : Mgr} {ps : List Post} (h : MInv S m ps) (p : Post) (hp : p.WF)
+    (hpost : m.post S p = .ok (m', S')) : MInv S' m' (ps ++ [p]) := minv_post h p hp hpost
+
+/-! ### solving -/
+
+/-- Assuming the SAT solver is correct (`SolverOK`): after any history, `solve()` reports satisfiable iff some
+    assignment satisfies every accepted constraint, and then the values exposed by `value` are those of an
+    assignment `τ` that satisfies every accepted constraint (for every registered variable and both polarities). -/
+theorem solve_sound {S0 : Store Var} (hw : WFStore S0) {ps : List Post} {m : Mgr} {S : Store Var}
+    (r : Run {} S0 ps m S) (hps : ∀ p ∈ ps, p.WF) {cnf : List (List Int)} (hcnf : m.cnf = .ok cnf)
+    {ans : Option (List Int)} (hsolver : SolverOK cnf ans) {b : Bool} {m' : Mgr} (hs : m.solve ans = .ok (b, m')) :
+    (b = true ↔ ∃ σ, ∀ p ∈ ps, p.holds σ) ∧
+    (b = true → ∃ τ, (∀ p ∈ ps, p.holds τ) ∧ ∀ v ∈ m.vars, ∀ s, m'.value ⟨v, s⟩ = some (litVal τ ⟨v, s⟩)) := by
+  have inv : MInv S m ps := by simpa using minv_run r [] (minv_init hw) hps
+  have hnd : m.vars.Nodup := run_nodup r (by simp)
+  obtain ⟨h1, h2⟩ := solve_spec hnd hcnf hsolver hs
+  constructor
+  · rw [h1]
+    constructor
+    · rintro ⟨τ, hτ⟩; exact ⟨τ, inv.sound τ hτ⟩
+    · rintro ⟨σ, hσ⟩
+      obtain ⟨τ, _, _, h3⟩ := inv.complete σ hσ
+      exact ⟨τ, h3⟩
+  · intro hb
+    obtain ⟨τ, hτ, hval⟩ := h2 hb
+    exact ⟨τ, inv.sound τ hτ, hval⟩
+
+/-- `evalexpr` on the exposed model is the value of the expression under that model -/
+theorem evalExpr_value (m : Mgr) (τ : Var → Bool) (e : Expr Var)
+    (hval : ∀ t ∈ e.t, m.value t.L = some (litVal τ t.L)) : m.evalExpr e = some (e.eval τ) :=
+  evalExpr_spec m τ e hval
+
+/-- a literal that was never registered through `newvar` makes `solve()` raise (`KeyError`) rather than be ignored -/
+theorem solve_unregistered {m : Mgr} {c : Clause} {x : Lit} (hc : c ∈ m.clauses) (hx : x ∈ c) (hv : x.v ∉ m.vars)
+    (ans : Option (List Int)) : ∃ e, m.solve ans = .error e := by
+  cases hcnf : m.cnf with
+  | error e => exact ⟨e, by simp [Mgr.solve, hcnf]⟩
+  | ok cnf =>
+    exfalso
+    obtain ⟨c', _, hcc⟩ := forall2_mem_left (cnf_spec hcnf) c hc
+    obtain ⟨y, _, hy⟩ := forall2_mem_left hcc x hx
+    obtain ⟨i, hi, _⟩ := litInt_spec hy
+    simp [Mgr.index, lookupIdx_none hv] at hi
+
+/-- inequalities built by `Ineq.__init__` from normal-form expressions over user variables (C16) are well-formed
+    postings, so all of the above applies to them -/
+theorem built_ineq_wf {a b : Expr Var} (o : CmpOp) (dec : Bool) (ha : a.NF) (hb : b.NF)
+    (hau : ∀ y ∈ a.t, isUser y.L.v) (hbu : ∀ y ∈ b.t, isUser y.L.v) : (Post.pb (Ineq.make a b o) dec).WF :=
+  make_wf o dec ha hb hau hbu
+
+/-! ### non-vacuity -/
+section Examples
+def x : Lit := ⟨.user "def_x", true⟩
+def y : Lit := ⟨.user "def_y", true⟩
+def z : Lit := ⟨.user "def_z", true⟩
+/-- `2x + 3y + 2¬z ≥ 4`, built through the algebra -/
+def q1 : Ineq Var :=
+  Ineq.make ((((⟨0, []⟩ : Expr Var).add (.term ⟨x, 2⟩)).add (.term ⟨y, 3⟩)).add (.term ⟨z.neg, 2⟩)) ⟨4, []⟩ .ge
+
+/-- it is not a clause, goes through the ROBDD (4 nodes) and the Tseitin encoding: 11 clauses -/
+example : (match (({} : Mgr).pseudoBool Store.init q1 false) with
+    | .ok (m, S) => (m.clauses.length, S.memory.length)
+    | .error _ => (0, 0)) = (11, 6) := by decide
+
+/-- the repaired `isclause`: `x + y > 0` is the clause `y ∨ x`, not a tautology -/
+example : (Ineq.make (((⟨0, []⟩ : Expr Var).add (.lit x)).add (.lit y)) ⟨0, []⟩ .gt).isClause matches .clause [_, _] := by
+  decide
+
+/-- a five-literal group with chain width 3 creates two auxiliaries and nine clauses -/
+example : (match ({} : Mgr).heule [x, y, z, x.neg, y.neg] 3 with
+    | .ok m => (m.auxcount, m.clauses.length) | .error _ => (0, 0)) = (2, 9) := by decide +kernel
+
+/-- `x + y = 1` is refused -/
+example : (({} : Mgr).pseudoBool Store.init
+    (Ineq.make (((⟨0, []⟩ : Expr Var).add (.lit x)).add (.lit y)) ⟨1, []⟩ .eq) false) matches .error .exception := by
+  decide
+end Examples
+
 end FV.C07
